@@ -225,6 +225,46 @@ pub fn accuracy_float_case(nout: usize) -> Case {
     }
 }
 
+/// soft-max output: a sample scores iff the arg-max of the prediction is the arg-max of the target — for arbitrary target
+/// vectors (all negative, mixed signs, ...), not only one-hot ones; no ties
+pub fn softmax_targets_case(n: usize, nout: usize) -> Case {
+    Case {
+        id: format!("C12/validate/n{}/softmax-symbolic-targets/{}out", n, nout),
+        property: "C12",
+        family: "Network::validate",
+        class: "validate-softmax".into(),
+        no_ties: true,
+        max_paths: 4096,
+        run: Box::new(move |ctx| {
+            let mut net = build_net(Shape::Single(2), &[L::Dense(nout, Act::Softmax, true)]);
+            symbolize(ctx, &mut net, "");
+            net.set_objective(Objective::CrossEntropy, None);
+            let xs: Vec<Tensor> = (0..n).map(|i| t1(&v1(ctx, &format!("x{}", i), 2))).collect();
+            let ts: Vec<V1> = (0..n).map(|i| v1(ctx, &format!("t{}", i), nout)).collect();
+            let tt: Vec<Tensor> = ts.iter().map(|t| t1(t)).collect();
+            let (xr, tr): (Vec<&Tensor>, Vec<&Tensor>) = (xs.iter().collect(), tt.iter().collect());
+            let (_, acc) = net.validate(&xr, &tr, lit(0.5));
+            let mut accs = Vec::new();
+            for i in 0..n {
+                let pv = elems(&net.predict(&xs[i]));
+                // 1 iff some index is the strict maximum of both vectors
+                let mut hit = lit(0.0);
+                for j in 0..nout {
+                    let mut both = lit(1.0);
+                    for l in 0..nout {
+                        if l != j {
+                            both = both * ite_lt(pv[l], pv[j], lit(1.0), lit(0.0)) * ite_lt(ts[i][l], ts[i][j], lit(1.0), lit(0.0));
+                        }
+                    }
+                    hit = hit + both;
+                }
+                accs.push(hit);
+            }
+            ctx.eq("accuracy", acc, sum(&accs) / lit(n as f32));
+        }),
+    }
+}
+
 /// single-output networks use the `target.len() == 1` branch of the accuracy rule
 pub fn validate_single_output_case(n: usize) -> Case {
     Case {
@@ -293,6 +333,8 @@ pub fn cases(tier: Tier, _seed: u64) -> Vec<Case> {
     }
     out.push(validate_case(2, Obj::CrossEntropy, Act::Softmax, true));
     out.push(validate_single_output_case(2));
+    out.push(softmax_targets_case(1, 2));
+    out.push(softmax_targets_case(if full { 2 } else { 1 }, 3));
     out.push(accuracy_float_case(1));
     out.push(accuracy_float_case(2));
     // sizes around the parallel chunk size (concrete weights, boundary samples symbolic)
